@@ -941,14 +941,11 @@ def ordered_arguments(
   ):
     if param.kind not in (param.VAR_POSITIONAL, param.VAR_KEYWORD):
       value = unset
-      if name in buildable.__arguments__ or (
-          index in buildable.__arguments__
-          and param.kind == param.POSITIONAL_ONLY
-      ):
-        if name in buildable.__arguments__:
-          value = buildable.__arguments__[name]
-        else:
-          value = buildable.__arguments__[index]
+      # Positional-only arguments are stored by index; a string key with the
+      # name of a positional-only parameter is a `**kwargs` entry.
+      key = index if param.kind == param.POSITIONAL_ONLY else name
+      if key in buildable.__arguments__:
+        value = buildable.__arguments__[key]
       elif param.default is not param.empty:
         if include_defaults:
           value = param.default
@@ -970,8 +967,14 @@ def ordered_arguments(
 
   if include_var_keyword:
     for name, value in buildable.__arguments__.items():
+      if not isinstance(name, str):
+        continue  # Positional arguments were handled above.
       param = buildable.__signature_info__.parameters.get(name)
-      if param is None or param.kind == param.VAR_KEYWORD:
+      if param is None or param.kind in (
+          param.POSITIONAL_ONLY,
+          param.VAR_POSITIONAL,
+          param.VAR_KEYWORD,
+      ):
         result[name] = value
 
   if not include_positional:
